@@ -323,6 +323,28 @@ func txnPoint(fr *frame) {
 	s.yield(fmt.Sprintf("point:%s#%d", name, th.pointHits[name]))
 }
 
+// commitSchedPoint: with h.SymbolicTxns() an explicit txn.Commit() made by /repo code is a
+// scheduling point named commit:<file>:<line> (the replay build has a verifhook.Point of that
+// name before the same statements, which also serves as crash candidate).
+func commitSchedPoint(fr *frame) {
+	p := fr.i.path
+	s := p.sched
+	if s == nil || !s.txnPoints || fr.caller == nil || fr.caller.fn == nil {
+		return
+	}
+	file := fr.i.prog.Fset.Position(fr.caller.fn.Pos()).Filename
+	if !inRepo(file) {
+		return
+	}
+	name := "commit:" + mutexName(fr)
+	th := s.cur
+	if th.pointHits == nil {
+		th.pointHits = map[string]int{}
+	}
+	th.pointHits[name]++
+	s.yield(fmt.Sprintf("point:%s#%d", name, th.pointHits[name]))
+}
+
 func mutexUnlock(fr *frame, mp *value, what string) {
 	p := fr.i.path
 	m := p.env.mutex(mp)
